@@ -289,6 +289,25 @@ class NumInterp(Interp):
                     return complex(v).conjugate()
                 if isinstance(v, self.np.ndarray):
                     return self.np.conj(v)
+            if isinstance(n.func, ast.Name) and n.func.id == 'isinstance' and len(n.args) == 2 and 'isinstance' not in self.env:
+                v = self.ev(n.args[0])
+                tnodes = n.args[1].elts if isinstance(n.args[1], ast.Tuple) else [n.args[1]]
+                import numbers as _numbers
+                known = {'int': int, 'float': float, 'complex': complex, 'bool': bool, 'str': str, 'list': list, 'tuple': tuple, 'dict': dict,
+                         'numbers.Number': _numbers.Number, 'numbers.Complex': _numbers.Complex, 'numbers.Real': _numbers.Real,
+                         'numbers.Integral': _numbers.Integral, 'np.ndarray': self.np.ndarray, 'np.integer': self.np.integer,
+                         'np.floating': self.np.floating, 'np.number': self.np.number}
+                res = False
+                for t in tnodes:
+                    ts = ast.unparse(t)
+                    if ts in known:
+                        res = res or isinstance(v, known[ts])
+                    elif ts.startswith('sympy.'):
+                        if not isinstance(v, (int, float, complex, self.np.ndarray, self.np.number, list, tuple, dict, str, type(None))):
+                            raise Unsupported(f'isinstance of non-numeric value against {ts}')
+                    else:
+                        raise Unsupported(f'isinstance against {ts}')
+                return res
             if isinstance(n.func, ast.Attribute) and n.func.attr == 'append':
                 recv = self.ev(n.func.value)
                 if isinstance(recv, list):
@@ -298,6 +317,30 @@ class NumInterp(Interp):
                 f = self.ev(n.func)
             except Unsupported:
                 f = None
+            if f is None and getattr(self, 'resolver', None) is not None and getattr(self, 'depth', 0) < 4:
+                # inter-procedural: a module-level helper function of the repository is interpreted, not called
+                target = self.resolver(n)
+                if target is not None:
+                    fnode = target
+                    params = [a.arg for a in fnode.args.posonlyargs + fnode.args.args + fnode.args.kwonlyargs]
+                    env = {}
+                    dflt = fnode.args.defaults
+                    pos = fnode.args.posonlyargs + fnode.args.args
+                    for i, a in enumerate(pos):
+                        j = i - (len(pos) - len(dflt))
+                        if j >= 0:
+                            env[a.arg] = self.ev(dflt[j])
+                    for a, d in zip(fnode.args.kwonlyargs, fnode.args.kw_defaults):
+                        if d is not None:
+                            env[a.arg] = self.ev(d)
+                    for i, a in enumerate(n.args):
+                        env[params[i]] = self.ev(a)
+                    for k in n.keywords:
+                        env[k.arg] = self.ev(k.value)
+                    sub = NumInterp(env, call_hook=self.call_hook, attr_hook=self.attr_hook)
+                    sub.resolver = self.resolver
+                    sub.depth = getattr(self, 'depth', 0) + 1
+                    return sub.call(fnode)
             if callable(f):
                 args = [self.ev(a) for a in n.args]
                 kw = {k.arg: self.ev(k.value) for k in n.keywords if k.arg and k.arg != 'dtype'}
